@@ -676,7 +676,7 @@ static int parent_main(const Scenario& sc, const Options& opt) {
     const auto known = load_known();
     Agg agg;
     const std::string exe = self_exe();
-    const double hang_secs = getenv("VERIF_HANG_SECS") ? atof(getenv("VERIF_HANG_SECS")) : 75.0;
+    const double hang_secs = getenv("VERIF_HANG_SECS") ? atof(getenv("VERIF_HANG_SECS")) : 180.0;  // generous: on an overloaded machine a healthy run has been seen to need > 75 s between heartbeats
     std::vector<Plan> enumerated;
     if (sc.enumerate) enumerated = sc.enumerate(opt.tier);
 
